@@ -191,6 +191,42 @@ func countReturns(body ast.Node) int {
 	return n
 }
 
+// closureLits: name -> the function literal bound to it (`name := func…`, `name = func…`, `var name = func…`); a name
+// bound more than once is left out.
+func closureLits(body ast.Node) map[string]*ast.FuncLit {
+	out := map[string]*ast.FuncLit{}
+	n := map[string]int{}
+	ast.Inspect(body, func(x ast.Node) bool {
+		switch a := x.(type) {
+		case *ast.AssignStmt:
+			for i, rh := range a.Rhs {
+				if fl, ok := rh.(*ast.FuncLit); ok && i < len(a.Lhs) {
+					if id, ok := a.Lhs[i].(*ast.Ident); ok {
+						out[id.Name] = fl
+						n[id.Name]++
+					}
+				}
+			}
+		case *ast.ValueSpec:
+			for i, id := range a.Names {
+				if i < len(a.Values) {
+					if fl, ok := a.Values[i].(*ast.FuncLit); ok {
+						out[id.Name] = fl
+						n[id.Name]++
+					}
+				}
+			}
+		}
+		return true
+	})
+	for k, c := range n {
+		if c != 1 {
+			delete(out, k)
+		}
+	}
+	return out
+}
+
 // closureSigs: name -> signature of the function literal (or declared function type) bound to it.
 func closureSigs(body ast.Node) map[string]string {
 	out := map[string]string{}
@@ -279,6 +315,9 @@ func ScanNames(dir string, overlay map[string][]byte) (*Vocab, error) {
 			v.Funcs[rel] = append(v.Funcs[rel], name)
 			v.Sigs[rel+"|"+name] = sigText(fd.Type)
 			if fd.Body != nil {
+				for cn, lit := range closureLits(fd.Body) {
+					v.Returns[rel+"|"+name+"$"+cn] = countReturns(lit.Body)
+				}
 				for cn, cs := range closureSigs(fd.Body) {
 					v.Sigs[rel+"|"+name+"$"+cn] = cs
 				}
@@ -335,12 +374,46 @@ func newNames(cur, voc *Vocab) (map[string]map[string]bool, map[string]map[strin
 				newBySig[cur.Sigs[pk+"|"+n]] = append(newBySig[cur.Sigs[pk+"|"+n]], n)
 			}
 		}
+		base := func(n string) string {
+			if i := strings.LastIndex(n, "."); i >= 0 {
+				return n[i+1:]
+			}
+			return n
+		}
 		for sg, olds := range goneBySig {
-			if news := newBySig[sg]; sg != "" && len(olds) == 1 && len(news) == 1 {
+			news := newBySig[sg]
+			if sg == "" || len(news) == 0 {
+				continue
+			}
+			pair := func(n, o string) {
 				if lastRenames[pk] == nil {
 					lastRenames[pk] = map[string]string{}
 				}
-				lastRenames[pk][news[0]] = olds[0]
+				lastRenames[pk][n] = o
+			}
+			// same name, only the receiver came or went (function ↔ method): paired by that name
+			usedO, usedN := map[string]bool{}, map[string]bool{}
+			for _, o := range olds {
+				for _, n := range news {
+					if !usedO[o] && !usedN[n] && base(o) == base(n) {
+						pair(n, o)
+						usedO[o], usedN[n] = true, true
+					}
+				}
+			}
+			var ro, rn []string
+			for _, o := range olds {
+				if !usedO[o] {
+					ro = append(ro, o)
+				}
+			}
+			for _, n := range news {
+				if !usedN[n] {
+					rn = append(rn, n)
+				}
+			}
+			if len(ro) == 1 && len(rn) == 1 {
+				pair(rn[0], ro[0])
 			}
 		}
 		for _, n := range names {
@@ -1863,6 +1936,9 @@ func (in *inliner) expand(c *calleeInfo, call *ast.CallExpr, recvX ast.Expr, tai
 			fmt.Fprintf(&sb, "var %s %s\n_ = %s\n", r.name, r.typ, r.name)
 		}
 	}
+	// positions inside the inlined text are those of the helper's own source: every copy of an instruction reports the
+	// same place, the place a reader would look at
+	sb.WriteString(in.lineDirective(c.body.Lbrace + 1))
 	sb.WriteString(body)
 	sb.WriteString("\n}\n")
 	if tail {
@@ -2235,16 +2311,31 @@ func (in *inliner) tailDupEdits(f *ast.File, src []byte) []textEdit {
 		return nil
 	}
 	var edits []textEdit
+	type unit struct {
+		name string
+		body *ast.BlockStmt
+	}
+	var units []unit
 	for _, d := range f.Decls {
 		fd, ok := d.(*ast.FuncDecl)
-		if !ok || fd.Body == nil || len(fd.Body.List) < 2 {
+		if !ok || fd.Body == nil {
 			continue
 		}
-		want, has := in.voc.Returns[in.rel+"|"+declName(fd)]
-		if !has || countReturns(fd.Body) >= want {
+		units = append(units, unit{declName(fd), fd.Body})
+		for cn, lit := range closureLits(fd.Body) {
+			units = append(units, unit{declName(fd) + "$" + cn, lit.Body})
+		}
+	}
+	for _, u := range units {
+		fdBody, fdName := u.body, u.name
+		if len(fdBody.List) < 2 {
 			continue
 		}
-		last, isRet := fd.Body.List[len(fd.Body.List)-1].(*ast.ReturnStmt)
+		want, has := in.voc.Returns[in.rel+"|"+fdName]
+		if !has || countReturns(fdBody) >= want {
+			continue
+		}
+		last, isRet := fdBody.List[len(fdBody.List)-1].(*ast.ReturnStmt)
 		if !isRet {
 			continue
 		}
@@ -2336,14 +2427,51 @@ func (in *inliner) tailDupEdits(f *ast.File, src []byte) []textEdit {
 				}
 			}
 		}
-		prev := fd.Body.List[len(fd.Body.List)-2]
-		switch prev.(type) {
+		prev := fdBody.List[len(fdBody.List)-2]
+		label := ""
+		if ls, isL := prev.(*ast.LabeledStmt); isL {
+			label = ls.Label.Name
+			prev = ls.Stmt
+		}
+		switch lp := prev.(type) {
 		case *ast.IfStmt, *ast.SwitchStmt:
 			dup(prev)
+		case *ast.ForStmt, *ast.RangeStmt:
+			// a loop followed by the trailing return: a `break` out of that loop goes to the return and nowhere else
+			var lbody *ast.BlockStmt
+			if fs, isF := lp.(*ast.ForStmt); isF {
+				lbody = fs.Body
+			} else {
+				lbody = lp.(*ast.RangeStmt).Body
+			}
+			var walk func(n ast.Node, depth int)
+			walk = func(n ast.Node, depth int) {
+				ast.Inspect(n, func(x ast.Node) bool {
+					if x == nil || x == n {
+						return true
+					}
+					switch y := x.(type) {
+					case *ast.FuncLit:
+						return false
+					case *ast.ForStmt, *ast.RangeStmt, *ast.SwitchStmt, *ast.TypeSwitchStmt, *ast.SelectStmt:
+						walk(y, depth+1)
+						return false
+					case *ast.BranchStmt:
+						if y.Tok != token.BREAK {
+							return true
+						}
+						if (y.Label == nil && depth == 0) || (y.Label != nil && label != "" && y.Label.Name == label) {
+							edits = append(edits, textEdit{off: in.offset(y.Pos()), end: in.offset(y.End()), text: retText + in.lineDirective(y.End())})
+						}
+					}
+					return true
+				})
+			}
+			walk(lbody, 0)
 		}
 		if len(edits) > before {
 			where := in.pk.Fset.PositionFor(last.Pos(), true)
-			in.res.Inlined = append(in.res.Inlined, fmt.Sprintf("%s: trailing return of %s copied into %d branch(es) (%s:%d)", in.rel, declName(fd), len(edits)-before, filepath.Base(where.Filename), where.Line))
+			in.res.Inlined = append(in.res.Inlined, fmt.Sprintf("%s: trailing return of %s copied into %d branch(es) (%s:%d)", in.rel, fdName, len(edits)-before, filepath.Base(where.Filename), where.Line))
 		}
 	}
 	_ = src
